@@ -479,6 +479,33 @@ func checkC03(c C03Case, o *Obs) error {
 			return fmt.Errorf("Reader item %d: %v", i, err)
 		}
 	}
+	// A consumer owns the records it received: modifying them (their tag maps included) while
+	// iterating must not affect the records that follow.
+	i := 0
+	for s, err := range sam.Reader(bytes.NewReader(file.Bytes())) {
+		if err != nil || i >= len(want) {
+			return fmt.Errorf("second pass: item %d: unexpected item (error %v)", i, err)
+		}
+		if err := sameSAM(s, want[i]); err != nil {
+			return fmt.Errorf("after the consumer modified the records it received earlier in the same pass: record %d: %v", i, err)
+		}
+		if s.Tags != nil {
+			for _, v := range s.Tags {
+				if b, ok := v.([]byte); ok {
+					for j := range b {
+						b[j] ^= 0x5a
+					}
+				}
+			}
+			s.Tags["~~"] = "scribble"
+			s.Tags["NM"] = -1
+		}
+		s.Qname, s.Seq = "scribble", "scribble"
+		i++
+	}
+	if i != len(want) {
+		return fmt.Errorf("second pass yields %d records, want %d", i, len(want))
+	}
 	return nil
 }
 
